@@ -73,7 +73,8 @@ def out_of_scope(r):
     relation a pair check decides: such pairs are discarded and counted."""
     if r.get("all_inf_batch"):
         return "all-inf-prior-batch (C11 known finding)"
-    if (r.get("raised_site") or "").startswith("student.fit_mvstud:LinAlgError"):
+    rs = r.get("raised_site") or ""
+    if rs.startswith("student.") and rs.endswith(":LinAlgError"):
         return "degenerate cluster: singular scale in fit_mvstud (C14 known finding)"
     return None
 
